@@ -267,12 +267,15 @@ pub fn materialise(root: &Path, w: &World, program: &[u8]) -> std::io::Result<La
         4 => {
             argv1.extend_from_slice(script.as_os_str().as_bytes());
         }
-        5 => {
-            // a symlink (in cwd) to the directory holding the script
-            let ln = cwd.join("ln");
+        5 | 17 => {
+            // a symlink (in cwd) to the directory holding the script; 17: the link is
+            // literally named `~`, which only a shell would expand
+            let lname = if w.spelling == 17 { "~" } else { "ln" };
+            let ln = cwd.join(lname);
             let _ = fs::remove_file(&ln);
             std::os::unix::fs::symlink(&script_dir, &ln)?;
-            argv1.extend_from_slice(b"ln/");
+            argv1.extend_from_slice(lname.as_bytes());
+            argv1.push(b'/');
             argv1.extend_from_slice(fname.as_bytes());
         }
         6 => {
@@ -649,6 +652,9 @@ fn run_inner(cfg: &Config, worker: usize, program: &[u8], w: &World, plan: &Plan
             push_env("SHELL", b"/bin/bash");
             push_env("PWD", b"/somewhere/else");
             push_env("TZ", b"Pacific/Kiritimati");
+            // what a CI runner exports
+            push_env("CI", b"true");
+            push_env("GITHUB_ACTIONS", b"true");
         }
         2 => {
             push_env("SEED_PATH", b"/nonexistent");
